@@ -8,7 +8,8 @@ from framework import Result
 
 
 async def _history(loop, ops):
-    users = [W.UserSpec("u0", None, read_speed_limit=1000, write_speed_limit=1000), W.UserSpec("u1", None, read_speed_limit=500)]
+    # u0 needs a password: between its USER (331) and its PASS a session is attached to the user but not logged in
+    users = [W.UserSpec("u0", "pw", read_speed_limit=1000, write_speed_limit=1000), W.UserSpec("u1", None, read_speed_limit=500)]
     wd = W.World(loop, users, server_kwargs={"read_speed_limit": 4000})
     await wd.start()
     fails = []
@@ -19,6 +20,8 @@ async def _history(loop, ops):
                 clients.append(await wd.raw_client())
             elif op[0] == "L" and op[1] < len(clients) and not clients[op[1]].eof:
                 await W.run_line(wd, clients[op[1]], ("USER u%d" % op[2]).encode())
+            elif op[0] == "P" and op[1] < len(clients) and not clients[op[1]].eof:
+                await W.run_line(wd, clients[op[1]], b"PASS pw" if len(op) < 3 or op[2] else b"PASS wrong")
             elif op[0] == "Q" and op[1] < len(clients) and not clients[op[1]].eof:
                 await W.run_line(wd, clients[op[1]], b"QUIT")
             elif op[0] == "V" and op[1] < len(clients) and not clients[op[1]].eof:
@@ -58,6 +61,11 @@ async def _history(loop, ops):
 def gen(ctx):
     rng = ctx.rng
     hist = [
+        # one session of the user sits between USER and PASS while another one of the same user leaves
+        [["C"], ["L", 0, 0], ["P", 0], ["C"], ["L", 1, 0], ["Q", 0], ["P", 1], ["C"], ["L", 2, 0], ["P", 2]],
+        [["C"], ["L", 0, 0], ["P", 0], ["C"], ["L", 1, 0], ["V", 0], ["C"], ["L", 2, 0], ["P", 2], ["P", 1]],
+        [["C"], ["L", 0, 0], ["C"], ["L", 1, 0], ["P", 1], ["Q", 1], ["C"], ["L", 2, 0], ["P", 2], ["P", 0]],
+        [["C"], ["L", 0, 0], ["P", 0, 0], ["C"], ["L", 1, 0], ["P", 1], ["Q", 1], ["P", 0], ["C"], ["L", 2, 0], ["P", 2]],
         [["C"], ["L", 0, 0], ["C"], ["L", 1, 0], ["Q", 1], ["C"], ["L", 2, 0]],
         [["C"], ["L", 0, 0], ["C"], ["L", 1, 0], ["V", 0], ["C"], ["L", 2, 0]],
         [["C"], ["L", 0, 0], ["Q", 0], ["C"], ["L", 1, 0], ["C"], ["L", 2, 0]],
@@ -71,8 +79,10 @@ def gen(ctx):
             if r < 0.25 and n < 5:
                 ops.append(["C"])
                 n += 1
-            elif r < 0.7:
+            elif r < 0.5:
                 ops.append(["L", rng.randrange(n), rng.randrange(2)])
+            elif r < 0.7:
+                ops.append(["P", rng.randrange(n), int(rng.random() < 0.85)])
             elif r < 0.85:
                 ops.append(["Q", rng.randrange(n)])
             else:
